@@ -226,6 +226,14 @@ func generate(a *advert.Advertised, depth int) []qcase {
 					return wrap([]*advert.Sel{{Alias: f.Name, Field: f, Sub: inner}})
 				}, d-1)
 			}
+			if ft.Kind == "UNION" {
+				// fragments for only some members (or none): the other members still answer the union's own __typename
+				first := ft.PossibleTypes[0].Name
+				add(wrap([]*advert.Sel{{Alias: f.Name, Field: f, OnType: map[string][]*advert.Sel{first: a.Scalars(a.Types[first], 0)}}}), true, "union-partial-fragments")
+				last := ft.PossibleTypes[len(ft.PossibleTypes)-1].Name
+				add(wrap([]*advert.Sel{{Alias: f.Name, Field: f, OnType: map[string][]*advert.Sel{last: a.Scalars(a.Types[last], 0)}}}), true, "union-partial-fragments")
+				add(wrap([]*advert.Sel{{Alias: f.Name, Field: f, OnType: map[string][]*advert.Sel{}}}), true, "union-no-fragments")
+			}
 			if d > 0 && ft.Kind == "UNION" {
 				for _, pt := range ft.PossibleTypes {
 					f, pt := f, pt
@@ -502,5 +510,5 @@ func run(rp *explore.Report, tier string) {
 
 func init() {
 	reg.Register(&reg.Harness{Property: "C14", Name: "c14/advertised", Level: "exploration", Run: run,
-		Rule: "fixture of Go shapes (all scalar widths, named scalars, enum, time, bytes, text-marshaler, pointers, slices of values/pointers/enums, nested and value structs, union, NonNullable / ListEntryNonNullable / Expensive / batch methods, NonNullable plain and batch methods (object and scalar pointers) that return nil for some objects, methods with NumParallelInvocations, null objects and lists of nulls, methods with every signature form, arguments incl. input objects) -> introspection JSON. From the JSON alone: every path of composite fields up to depth 2 (thorough 3), ending in all leaves / all fields / each field alone / the same field under two aliases (arguments filled from advertised input types), plus at every position the three ill-formedness kinds (unknown field, selection on a leaf, none on a composite), plus one named fragment (each field of each object type) spread at two positions: the same type twice (well-formed) or a second type that lacks the field or has it with the other leaf/composite kind (ill-formed), in both orders; plus one composite field selected under one alias with two different sub-selections at two paths to the same (long-lived) object; plus one response key selected twice in one selection set with a named or inline fragment in the first or the second occurrence (objects and unions). Oracle: ill-formed => rejected; well-formed => accepted, executes without error under FIFO and LIFO schedulers and inside a reactive rerunner, and the response conforms to the advertised types (exact aliases, lists, scalar JSON kinds, enum values, null only where nullable, list entries excepted)"})
+		Rule: "fixture of Go shapes (all scalar widths, named scalars, enum, time, bytes, text-marshaler, pointers, slices of values/pointers/enums, nested and value structs, union, NonNullable / ListEntryNonNullable / Expensive / batch methods, NonNullable plain and batch methods (object and scalar pointers) that return nil for some objects, methods with NumParallelInvocations, null objects and lists of nulls, methods with every signature form, arguments incl. input objects) -> introspection JSON. From the JSON alone: every path of composite fields up to depth 2 (thorough 3), ending in all leaves / all fields / each field alone / the same field under two aliases / union fields with fragments for only one member or none (arguments filled from advertised input types), plus at every position the three ill-formedness kinds (unknown field, selection on a leaf, none on a composite), plus one named fragment (each field of each object type) spread at two positions: the same type twice (well-formed) or a second type that lacks the field or has it with the other leaf/composite kind (ill-formed), in both orders; plus one composite field selected under one alias with two different sub-selections at two paths to the same (long-lived) object; plus one response key selected twice in one selection set with a named or inline fragment in the first or the second occurrence (objects and unions). Oracle: ill-formed => rejected; well-formed => accepted, executes without error under FIFO and LIFO schedulers and inside a reactive rerunner, and the response conforms to the advertised types (exact aliases, lists, scalar JSON kinds, enum values, null only where nullable, list entries excepted)"})
 }
